@@ -50,8 +50,10 @@ var c14BaseSpecs = map[string]string{
 	// a URL whose parameter list was materialised (single-threaded) BEFORE it is shared: from then on
 	// SearchParams() and the list's accessors are reads as well
 	"listed": "http://h/p?b=2&a=1&b=%41#f",
+	// an empty-but-present query and fragment (the shapes for which "nothing to copy" shortcuts are tempting)
+	"emptyq": "http://h/list?#",
 }
-var c14BaseNames = []string{"special", "file", "opaque", "ipv4", "listed"}
+var c14BaseNames = []string{"special", "file", "opaque", "ipv4", "listed", "emptyq"}
 
 var c14Refs = []string{"", "#g", "?z=1", "x/../y", "/abs", "//h2/x", "..", "C|/w", "http://é.test/a b", "file:d/e", "http:d/e"}
 
@@ -157,6 +159,37 @@ func init() {
 	for _, bn := range c14BaseNames {
 		bn := bn
 		refs := c14Refs
+		if bn == "emptyq" {
+			refs = []string{"", "#g", "x"}
+		}
+		if bn == "special" || bn == "emptyq" || bn == "listed" || bn == "file" {
+			// a PRIVATE result resolved from the shared base (or cloned from it), then written to: the writes must stay
+			// in the private value
+			for _, how := range []string{"", "#g", "clone"} {
+				how := how
+				add("base["+bn+"].derive("+how+")+mutate", func(e *c14Env) string {
+					var r *url.Url
+					if how == "clone" {
+						r = e.bases[bn].Clone()
+					} else {
+						var err error
+						if r, err = e.bases[bn].Parse(how); err != nil {
+							return "ERR:" + err.Error()
+						}
+					}
+					sp := r.SearchParams()
+					sp.Append("k", "v w")
+					sp.Delete("b")
+					sp.Sort()
+					r.SetHash("x y")
+					r.SetPathname("/z/../w")
+					r.SetHost("k.test:82")
+					r.SetSearch("")
+					sp.Append("m", "1")
+					return resOf(r, nil)
+				})
+			}
+		}
 		if bn == "listed" {
 			refs = []string{"", "?z=1", "x/../y", "//h2/x"}
 			add("base[listed].list-reads", func(e *c14Env) string {
